@@ -705,7 +705,7 @@ func checkC12(c *Ctx) {
 				x, y = y, x
 			}
 			c.Count("overlap:"+x+" x "+y, total[x+" x "+y])
-			c.Floor("overlap:"+x+" x "+y, 10)
+			c.Floor("overlap:"+x+" x "+y, 3)
 		}
 	}
 	if c.replayCase == "" || strings.HasPrefix(c.replayCase, "snap") {
